@@ -117,17 +117,25 @@ def _forward_ld_range(j):
         lds = []
         for k in (-8, -3, -1, 1, 3, 8):
             xp = j.x.detach() * (1.0 + k * eps) + (k * torch.finfo(j.x.dtype).tiny)
-            jj = make_job(j.e, j.t, xp, j.ctx, False, j.regime, tag='backward')
+            jj = make_job(j.e, j.t, xp, j.ctx, bool(j.inverse), j.regime, tag='backward')
             if jj.kind != 'ok' or not jj.reqs:
                 continue
             run_jobs([jj])
             out, ld, cond, alts, err = R.decode(jj.resp[-1], jj.prec)
             if err or len(ld) != j.ld.numel():
                 continue
+            # a perturbed input that crossed into a linear tail (identity, log-det exactly 0) is on the other side of a junction where
+            # the log-det jumps: it says nothing about the conditioning on this side
+            xpl = xp.reshape(-1).tolist()
+            per = max(1, len(out) // max(1, len(ld)))
+            ld = [v if not (v == 0.0 and all(out[i * per + q] == xpl[i * per + q] for q in range(per))) else None for i, v in enumerate(ld)]
             lds.append(ld)
         if len(lds) < 2:
             return None
-        return [min(v) for v in zip(*lds)], [max(v) for v in zip(*lds)]
+        cols = [[v for v in col if v is not None] for col in zip(*lds)]
+        if any(len(c) == 0 for c in cols):
+            return None
+        return [min(c) for c in cols], [max(c) for c in cols]
     except Exception:
         return None
 
@@ -242,8 +250,8 @@ def compare(ctx, j, prop, observables=('out', 'ld'), atol=1e-9, rtol=1e-9, check
                         ok2 = False; break
             if ok2:
                 ok = True; why = ''; br += '/backward-error'
-    if not ok and not j.inverse and why.startswith('logabsdet[') and j.tag != 'backward':
-        # a forward log-det that differs from the model's by more than exp(|ld|) ulps: where the local slope is tiny (a nearly flat
+    if not ok and why.startswith('logabsdet[') and j.tag != 'backward':
+        # (both directions) a log-det that differs from the model's by more than exp(|ld|) ulps: where the local slope is tiny (a nearly flat
         # end of a bin, |ld| ~ 25) the log-det f''/f' is far more sensitive to the last ulp of the input than the value is.  Accept
         # when the implementation's log-det lies within the range the MODEL returns on inputs a few ulps away (the implementation is
         # then the model at an input within rounding distance) and the outputs agreed.
